@@ -1208,6 +1208,12 @@ impl GenericIfData {
                     }
                 }
             }
+            Self::Sequence(items) | Self::Array(items) => {
+                // the elements of a sequence or array can be structs that contain tagged items
+                for item in items {
+                    item.merge_includes();
+                }
+            }
             _ => {}
         }
     }
